@@ -14,6 +14,8 @@ structure CoreOK (ci : Bool) (core : List Nat) : Prop where
   head : ∃ c0 tl, core = c0 :: tl ∧ c0 ≠ 92 ∧ c0 ≠ 33 ∧ c0 ≠ 47 ∧ c0 ≠ 35
   last : ∃ cl, core.getLast? = some cl ∧ cl ≠ 47 ∧ cl ≠ 92 ∧ cl ≠ 32 ∧ isWs cl = false
   noEscCi : ci = true → 92 ∉ core
+  /-- no `**` directly after the literal prefix (always so in this grammar; kept decidable in the guard) -/
+  dpos : GitSpec.okDstarPos core = true
 
 /-- the same, decidable -/
 def okCore (ci : Bool) (core : List Nat) : Bool :=
@@ -24,13 +26,13 @@ def okCore (ci : Bool) (core : List Nat) : Bool :=
   (match core.getLast? with
    | some cl => cl != 47 && cl != 92 && cl != 32 && !isWs cl
    | none => false) &&
-  (!ci || !core.contains 92)
+  (!ci || !core.contains 92) && GitSpec.okDstarPos core
 
 theorem coreOK_of_okCore {ci : Bool} {core : List Nat} (h : okCore ci core = true) : CoreOK ci core := by
   unfold okCore at h
   simp only [Bool.and_eq_true] at h
-  obtain ⟨⟨⟨h1, h2⟩, h3⟩, h4⟩ := h
-  refine ⟨h1, ?_, ?_, ?_⟩
+  obtain ⟨⟨⟨⟨h1, h2⟩, h3⟩, h4⟩, h5⟩ := h
+  refine ⟨h1, ?_, ?_, ?_, h5⟩
   · cases core with
     | nil => simp at h2
     | cons c0 tl =>
@@ -93,10 +95,10 @@ theorem simpleGlob_no_dstar_suffix (g : List Nat) (hg : simpleGlob true g = true
 section stages2
 variable {ci : Bool} {core : List Nat}
 
-theorem actualOf_simple (abs : Bool) (h : CoreOK ci core) :
+theorem actualOf_simple' (abs : Bool) (hsimple : simpleGlob true core = true) (hne : core ≠ []) :
     actualOf abs core = if !abs && !core.contains 47 then [42, 42, 47] ++ core else core := by
-  obtain ⟨c0, tl, hcore, h92, h33, h47, h35⟩ := h.head
-  have hnd := simpleGlob_no_dstar_suffix core h.simple
+  obtain ⟨c0, tl, hcore⟩ := List.exists_cons_of_ne_nil hne
+  have hnd := simpleGlob_no_dstar_suffix core hsimple
   have hend0 : endsWith core [47, 42, 42] = false := by
     apply Bool.eq_false_iff.mpr
     intro hs; exact hnd (List.isSuffixOf_iff_suffix.mp hs)
@@ -112,7 +114,7 @@ theorem actualOf_simple (abs : Bool) (h : CoreOK ci core) :
       · rcases List.suffix_cons_iff.mp h2 with h3 | h3
         · -- [47,42,42] = 47 :: core
           have hc : core = [42, 42] := by simpa using h3.symm
-          have hs2 := h.simple
+          have hs2 := hsimple
           rw [hc] at hs2
           simp [simpleGlob] at hs2
         · exact hnd h3
@@ -120,7 +122,7 @@ theorem actualOf_simple (abs : Bool) (h : CoreOK ci core) :
     rw [hcore]
     by_cases hc : c0 = 42
     · subst hc
-      have := simpleGlob_head_star (by rw [← hcore]; exact h.simple)
+      have := simpleGlob_head_star (by rw [← hcore]; exact hsimple)
       cases tl with
       | nil => simp [startsWith, List.isPrefixOf]
       | cons e tl' =>
@@ -131,7 +133,7 @@ theorem actualOf_simple (abs : Bool) (h : CoreOK ci core) :
     apply Bool.eq_false_iff.mpr
     intro he
     have : core = [42, 42] := by simpa using he
-    have hs2 := h.simple
+    have hs2 := hsimple
     rw [this] at hs2
     simp [simpleGlob] at hs2
   unfold actualOf
@@ -139,6 +141,11 @@ theorem actualOf_simple (abs : Bool) (h : CoreOK ci core) :
   · simp only [Bool.not_false, Bool.and_self, ↓reduceIte, hstart, heq, Bool.or_self,
       Bool.false_eq_true, hend1]
   all_goals simp [hend0]
+
+theorem actualOf_simple (abs : Bool) (h : CoreOK ci core) :
+    actualOf abs core = if !abs && !core.contains 47 then [42, 42, 47] ++ core else core := by
+  obtain ⟨c0, tl, hcore, _⟩ := h.head
+  exact actualOf_simple' abs h.simple (by rw [hcore]; simp)
 
 theorem parse_dstar_simple (o : Opts) (hbe : o.be = true) (hg : simpleGlob true core = true) :
     parse o ([42, 42, 47] ++ core) = .ok (.s .recPrefix :: (simpleToks true core).map Token.s) := by
@@ -450,15 +457,14 @@ theorem recPrefix_slashfree (o : Opts) (T : List Token) (A : Bytes → Bool)
     · left; rw [hp] at h; exact h
     · right; exact ⟨afterLast 47 p, mem_afterSlashes.mpr ⟨x, hx⟩, h⟩
 
-theorem rgGlobW_matches (ci neg abs dir : Bool) (core : List Nat) (h : CoreOK ci core)
+theorem rgGlobW_matches' (ci neg abs dir : Bool) (core : List Nat) (hsimple : simpleGlob true core = true)
+    (hne : core ≠ []) (hnoEsc : ci = true → 92 ∉ core)
     (rel : List Bytes) (hwf : wfRel rel = true) :
     (rgGlobW ci neg abs dir core).glob.isMatch (joinPath rel) =
       (if !abs && !core.contains 47 then GitSpec.wm ci false true core (rel.getLast?.getD [])
        else GitSpec.wm ci true true core (joinPath rel)) := by
-  obtain ⟨c0, tl, hcore, _⟩ := h.head
-  have hne : core ≠ [] := by rw [hcore]; simp
-  have hts := simpleToks_simple true core h.simple
-  have htne := simpleToks_ne_nil core h.simple hne
+  have hts := simpleToks_simple true core hsimple
+  have htne := simpleToks_ne_nil core hsimple hne
   have hA : ∀ r, tokensK (giOpts ci) ((simpleToks true core).map Token.s) (fun r => r.isEmpty) r =
       atomsMatch (wmOpts ci true) ((simpleToks true core).map trAtom) r :=
     fun r => tokensK_eq_atomsMatch (giOpts ci) _ hts r
@@ -477,12 +483,12 @@ theorem rgGlobW_matches (ci neg abs dir : Bool) (core : List Nat) (h : CoreOK ci
         rw [hst] at hc
         simp only [List.map_cons, List.cons.injEq, Token.s.injEq] at hc
         rw [hc.1] at this; simp [simpleTok] at this),
-      hA, wm_simple ci true core h.simple h.noEscCi]
+      hA, wm_simple ci true core hsimple hnoEsc]
   · simp only [↓reduceIte]
     have h47 : 47 ∉ core := by
       simp only [Bool.and_eq_true, Bool.not_eq_eq_eq_not, Bool.not_true] at hs
       simpa using hs.2
-    have hfree := slashFree_of_no_slash core h.simple h47
+    have hfree := slashFree_of_no_slash core hsimple h47
     rw [tokMatch_eq _ _ _ (by
       intro hc
       simp only [List.cons.injEq, true_and, List.map_eq_nil_iff] at hc
@@ -497,7 +503,15 @@ theorem rgGlobW_matches (ci neg abs dir : Bool) (core : List Nat) (h : CoreOK ci
         have hw := hwf.2 b (List.mem_of_getLast? hl)
         simp only [wfName, Bool.and_eq_true, Bool.not_eq_eq_eq_not, Bool.not_true] at hw
         simpa using hw.1.1.2
-    rw [← atomsMatch_ls_irrelevant ci _ hts _ hb, wm_simple ci false core h.simple h.noEscCi]
+    rw [← atomsMatch_ls_irrelevant ci _ hts _ hb, wm_simple ci false core hsimple hnoEsc]
+
+theorem rgGlobW_matches (ci neg abs dir : Bool) (core : List Nat) (h : CoreOK ci core)
+    (rel : List Bytes) (hwf : wfRel rel = true) :
+    (rgGlobW ci neg abs dir core).glob.isMatch (joinPath rel) =
+      (if !abs && !core.contains 47 then GitSpec.wm ci false true core (rel.getLast?.getD [])
+       else GitSpec.wm ci true true core (joinPath rel)) := by
+  obtain ⟨c0, tl, hcore, _⟩ := h.head
+  exact rgGlobW_matches' ci neg abs dir core h.simple (by rw [hcore]; simp) h.noEscCi rel hwf
 
 end matching
 
@@ -508,7 +522,7 @@ theorem lineAgree_lineOf (ci neg abs dir : Bool) (core : List Nat) (h : CoreOK c
   unfold mHit sHit
   rw [addLine_lineOf neg abs dir h, parsePat_lineOf neg abs dir h]
   have hm := rgGlobW_matches ci neg abs dir core h rel hwf
-  simp only [GiGlob.hits, GitSpec.patMatches, hm, joinComps_eq]
+  simp only [GiGlob.hits, GitSpec.patMatches, GitSpec.matchPathname_eq_wm _ _ _ h.dpos, hm, joinComps_eq]
   simp only [rgGlobW]
   cases (!abs && !core.contains 47) <;> simp [Bool.and_comm]
 
